@@ -13,6 +13,6 @@ for fn in ('/verif/.cache/dev/cases.sexp','/verif/.cache/dev/eval.sexp'):
             if m and m.group(2)=='fail': c[m.group(1)]+=1
 print('failing verdicts:',dict(sorted(c.items())))
 PY
-echo "model mismatches: $(grep -c '^(mismatch' /verif/.cache/dev/model.out)  corr0: $(grep -c '^(corr .* 0 ' /verif/.cache/dev/eval.sexp)"
+echo "model mismatches: $(grep -c '^(mismatch' /verif/.cache/dev/model.out)  corr0: $(grep -c '^(corr "[^"]*" 0 ' /verif/.cache/dev/eval.sexp)"
 head -1 /tmp/seeded_eval.log | cut -c1-150
 cd /repo && git checkout -- . 
